@@ -358,6 +358,10 @@ func (c *checker) runEntry(p *Program, u UnitSpec, e EntrySpec, work string) {
 		if mode == "" {
 			mode = "native"
 		}
+		if v.Kind == "lockset" || v.Kind == "deadlock" {
+			// schedule-level findings have no sequential native counterpart: they are engine-level counterexamples
+			mode = "engine"
+		}
 		dir := filepath.Join(c.verif, "replays", c.prop, fmt.Sprintf("%d", c.replayN))
 		c.replayN++
 		confirmed, how := c.replay(p, u, e, v, dir, mode, cfg.Params)
